@@ -1498,6 +1498,9 @@ def main(argv):
             import traceback
             fail('build raised', traceback.format_exc()[-900:])
             continue
+        h = parse_header(data)
+        check(h['checksum_ok'] and h['signature_ok'] and h['file_size'] == len(data) and h['header_size'] == 0x70
+              and h['map_off'] == b.layout['map_list'], 'parse_header', h)
         check(fix_checksum(data) == data, 'fix_checksum is idempotent on build output')
         broken = bytearray(data)
         broken[8:32] = bytes(24)
